@@ -5,7 +5,7 @@ check(s) of the property it breaks, records whether a VIOLATION was reported, an
 Writes seeded/RESULTS.json."""
 import json, os, subprocess, sys, time
 HERE = os.path.dirname(os.path.dirname(os.path.abspath(__file__)))
-REPO = "/tmp/seed/apply"      # scratch worktree of /repo at its HEAD: /repo itself stays untouched while background runs use it
+REPO = os.environ.get("SEED_APPLY", "/tmp/seed/apply")      # scratch worktree of /repo at its HEAD: /repo itself stays untouched while background runs use it
 import subprocess as _sp
 if not os.path.isdir(REPO):
     _sp.run("git -C /repo worktree add -q --detach %s HEAD" % REPO, shell=True, check=True)
@@ -24,10 +24,11 @@ dirty = sh("git -C %s status --porcelain --untracked-files=no" % REPO).stdout.st
 if dirty:
     print("refusing: /repo has uncommitted changes:\n" + dirty); sys.exit(2)
 import shutil
-bak = os.path.join(HERE, ".work", "evidence.bak")
+bak = os.path.join(HERE, ".work", "evidence.bak.%d" % os.getpid())
 shutil.rmtree(bak, ignore_errors=True); os.makedirs(os.path.dirname(bak), exist_ok=True)
 shutil.copytree(os.path.join(HERE, "evidence"), bak)      # runs on a mutated tree must not leave their evidence behind
-resp = os.path.join(sd, "RESULTS.json")
+touched = set()
+resp = os.environ.get("SEED_RESULTS") or os.path.join(sd, "RESULTS.json")
 results = json.load(open(resp)) if os.path.exists(resp) else {}
 for sid in ids:
     d = os.path.join(sd, sid)
@@ -51,6 +52,7 @@ for sid in ids:
         if dm.returncode != 1:
             print(sid, "WARNING: demo exit %d on the patched tree (expected 1): the applied change may have become harmless" % dm.returncode)
         for pid in props:
+            touched.add(pid)
             for seed in seeds:
                 t0 = time.time()
                 c = sh("./check %s --tier %s --seed %d" % (pid, tier, seed), cwd=HERE)
@@ -70,4 +72,8 @@ for sid in ids:
     finally:
         sh("git -C %s checkout -q HEAD -- ." % REPO)
 json.dump(results, open(resp, "w"), indent=1, sort_keys=True)
-shutil.rmtree(os.path.join(HERE, "evidence")); shutil.copytree(bak, os.path.join(HERE, "evidence"))
+for pid in touched:        # restore only what this process ran (several of these may run side by side, one per property)
+    src = os.path.join(bak, pid + ".json")
+    if os.path.exists(src):
+        shutil.copy(src, os.path.join(HERE, "evidence", pid + ".json"))
+shutil.rmtree(bak, ignore_errors=True)
